@@ -112,7 +112,13 @@ def run(prop, tier, seed):
         merged["other"].update(d["other"])
         merged["contract_evaluations"].update(d.get("notes", {}).get("contract_evaluations", {}))
         for k, v in d.get("notes", {}).items():
-            if k != "contract_evaluations":
+            if k == "functions_executed":
+                fe = merged["notes"].setdefault(k, {})
+                for f, qs in v.items():
+                    fe[f] = sorted(set(fe.get(f, [])) | set(qs))
+            elif k in ("budget_high_water", "budget_high_water_lines", "max_steps_seen") and isinstance(v, (int, float)):
+                merged["notes"][k] = max(merged["notes"].get(k, 0), v)
+            elif k != "contract_evaluations":
                 merged["notes"].setdefault(k, v)
         merged["truncated"] += 1 if d.get("truncated") else 0
         merged["samples"].extend(d["samples"][: max(2, 24 // nshards)])
@@ -181,6 +187,19 @@ def run(prop, tier, seed):
         "inconclusive_reasons": reasons,
         "exhaustive": bool(getattr(mod, "EXHAUSTIVE", False)) and not merged["truncated"] and not dead,
     }
+    fe = merged["notes"].pop("functions_executed", None)
+    if fe is not None:
+        anchors = set()
+        try:
+            for line in open(os.path.join(VERIF, "properties.jsonl")):
+                pr = json.loads(line)
+                if pr["id"] == prop:
+                    anchors = {f[len("mathy_core/"):] for f in pr["anchors"]["files"] if f.startswith("mathy_core/") and f.endswith(".py")}
+        except Exception:
+            pass
+        cov["anchored_files_functions_executed"] = {f: qs for f, qs in sorted(fe.items()) if f in anchors}
+        cov["anchored_files_without_any_executed_function"] = sorted(a for a in anchors if a not in fe)
+        cov["functions_executed_total"] = sum(len(v) for v in fe.values())
     cov.update(merged["notes"])
     cov.update(fp)
     ev = {
